@@ -113,8 +113,38 @@ def apply_op(pool, op):
         pool[op[1]].append_field(op[2], pool[op[3]])
     elif name == 'InsertField':
         pool[op[1]].insert_field(0, op[2], pool[op[3]])
+    elif name == 'Publish':
+        # the model in the signature of a service of a NEW application (the interface names anonymous types in place)
+        from spyne import Application, Service, srpc
+        from spyne.protocol.soap import Soap11
+        PUB[0] += 1
+        k = PUB[0]
+
+        def body():
+            return None
+        body.__name__ = str('pub%d' % k)
+        svc = type(str('PubSvc%d' % k), (Service,), {body.__name__: srpc(_returns=pool[op[1]])(body)})
+        Application([svc], 'tns', name='Pub%d' % k, in_protocol=Soap11(), out_protocol=Soap11())
     else:
         raise ValueError(op)
+
+
+PUB = [0]
+
+
+def names_of(pool):
+    """type names of every pooled model and of its parts (item type of an array, member types of a class)"""
+    out = []
+    for c in pool[1:]:
+        def tn(x):
+            n = x.get_type_name()
+            return n if isinstance(n, str) else ''
+        names = [tn(c)]
+        if base_of(c) == 'arr':
+            (k, v), = c._type_info.items()
+            names.append('%s:%s' % (k, tn(v)))
+        out.append(names)
+    return out
 
 
 def view_of(pool):
@@ -181,6 +211,7 @@ def random_worker(path_in, path_out):
     traces = []
     for _ in range(n):
         pool = fresh_pool()
+        names0 = names_of(pool)
         steps = []
         for _ in range(depth):
             op = pick_op(rnd, pool)
@@ -188,11 +219,46 @@ def random_worker(path_in, path_out):
                 break
             try:
                 apply_op(pool, op)
-                steps.append({'op': [str(x) if not isinstance(x, int) else x for x in op], 'view': view_of(pool)})
+                steps.append({'op': [str(x) if not isinstance(x, int) else x for x in op], 'view': view_of(pool), 'names': names_of(pool)})
             except Exception as e:
                 steps.append({'op': list(op), 'error': '%s: %s' % (type(e).__name__, e)})
                 break
-        traces.append(steps)
+        traces.append({'steps': steps, 'names0': names0})
+    json.dump(traces, open(path_out, 'w'))
+
+
+def directed_histories():
+    """Histories aimed at what publication may rename: two arrays (or an array and a Mandatory variant) over ONE type,
+    each published in an application of its own, in both orders; classes and their variants published one after the other."""
+    out = []
+    for p, kw in ((1, 'ge5'), (1, 'min1'), (2, 'len3'), (2, 'nil0')):
+        for order in ((7, 8), (8, 7)):
+            out.append([('CustPrim', p, kw), ('ArrayOf', 6), ('ArrayOf', 6), ('Publish', order[0]), ('Publish', order[1])])
+        out.append([('CustPrim', p, kw), ('ArrayOf', 6), ('Publish', 7), ('ArrayOf', 6), ('Publish', 8), ('Publish', 6)])
+        out.append([('CustPrim', p, kw), ('ArrayOf', 6), ('Mandatory', 7), ('Publish', 8), ('ArrayOf', 6), ('Publish', 9), ('Publish', 7)])
+    for c in (3, 4, 5):
+        out.append([('ArrayOf', c), ('ArrayOf', c), ('Publish', 6), ('Publish', 7)])
+        out.append([('Customize', c, 'min1'), ('ArrayOf', 6), ('ArrayOf', 6), ('Publish', 8), ('Publish', 7), ('Publish', c)])
+    return out
+
+
+def directed_worker(path_in, path_out):
+    from ..core import use_repo
+    use_repo()
+    traces = []
+    for ops in json.load(open(path_in)):
+        pool = fresh_pool()
+        names0 = names_of(pool)
+        steps = []
+        for op in ops:
+            op = tuple(op)
+            try:
+                apply_op(pool, op)
+                steps.append({'op': list(op), 'view': view_of(pool), 'names': names_of(pool)})
+            except Exception as e:
+                steps.append({'op': list(op), 'error': '%s: %s' % (type(e).__name__, e)})
+                break
+        traces.append({'steps': steps, 'names0': names0})
     json.dump(traces, open(path_out, 'w'))
 
 
@@ -205,8 +271,10 @@ def pick_op(rnd, pool):
     for i in cls_ids:
         allnames |= set(pool[i].get_flat_type_info(pool[i]).keys())
     for _ in range(50):
-        k = rnd.choice(['CustPrim', 'Customize', 'ChildAttrs', 'ChildAttrsAll', 'ArrayOf', 'Mandatory', 'Subclass',
-                        'AppendField', 'InsertField'])
+        k = rnd.choice(['CustPrim', 'Customize', 'ChildAttrs', 'ChildAttrsAll', 'ArrayOf', 'ArrayOf', 'Mandatory', 'Subclass',
+                        'AppendField', 'InsertField', 'Publish', 'Publish'])
+        if k == 'Publish':
+            return (k, rnd.choice(ids))
         if k == 'CustPrim':
             i = rnd.choice(prim_ids)
             return (k, i, rnd.choice(['min1', 'nil0', 'ge5'] if base_of(pool[i]) == 'int' else ['min1', 'nil0', 'len3']))
@@ -322,10 +390,13 @@ def run(ctx):
     depth, per = (6, 150) if ctx.quick else (7, 1500)
     outs = run_workers(ctx, 'random_worker', [[ctx.seed * 1000 + i, per, depth] for i in range(nproc)])
     traces = [t for out in outs for t in out]
+    dh = directed_histories()
+    traces += [t for out in run_workers(ctx, 'directed_worker', [dh[0::2], dh[1::2]]) for t in out]
     tf = os.path.join(ctx.work, 'model_traces.ndjson')
     with open(tf, 'w') as f:
         for t in traces:
-            f.write(json.dumps({'steps': t}) + '\n')
+            f.write(json.dumps(t) + '\n')
+    traces = [t['steps'] for t in traces]
     cfgt = pc.write_cfg(os.path.join(ctx.work, 'tracemodel.cfg'), ['SPECIFICATION TSpec', 'CONSTANT MaxOps = 99',
                         'CONSTRAINT Report', 'CHECK_DEADLOCK FALSE'])
     rt = tlc.run('TraceModel', cfgt, ctx.work, env={'TRACE_FILE': tf}, timeout=1800)
